@@ -632,7 +632,10 @@ impl Gs3State {
                 last = c;
             }
         }
-        groups.push(&atoms[last ..]);
+        // (a server does not send a packet without content)
+        if last < atoms.len() || groups.is_empty() {
+            groups.push(&atoms[last ..]);
+        }
         let n = groups.len();
         groups
             .iter()
